@@ -81,7 +81,7 @@ def build_cases(seed, n_plain, n_fmt):
     # wide cardinality groups (13-16 children): set iteration order shows only with many members
     for k in (13, 16):
         r = rand.rng(seed, "c12wide", k)
-        used = set()
+        used = {"Wide", "Opt"}
         kids = [{"name": rand.plain_name(r, used), "rels": []} for _ in range(k)]
         spec = {"root": {"name": "Wide", "rels": [{"min": 2, "max": 3, "children": kids},
                                                   {"min": 0, "max": 1, "children": [{"name": "Opt", "rels": []}]}]}, "ctcs": []}
